@@ -9,7 +9,8 @@ from vlib import Recorder, Report, b2l, call, exc_info
 def small_tx(r, witness):
     d = gen.gen_tx(r, nin=r.choice([1, 1, 2]), nout=r.choice([1, 1, 2]), witness="none", lens=[0, 1, 2, 25])
     if witness:
-        d["wit"] = [[gen.rbytes(r, r.choice([1, 32, 72]))] if r.random() < 0.8 else [] for _ in d["vin"]]
+        d["wit"] = [([gen.rbytes(r, r.choice([1, 32, 72, 252, 253, 300]))] if r.random() < 0.85 else [b"\x01"] * r.choice([2, 253, 254]))
+                    if r.random() < 0.8 else [] for _ in d["vin"]]
         if all(len(s) == 0 for s in d["wit"]):
             d["wit"][0] = [b"\x01"]
     return d
@@ -32,7 +33,27 @@ def drive(tier):
                     txs[r.randrange(n)] = txs[r.randrange(n)]
                 txs[-1] = txs[-2] if n % 2 == 0 else txs[-1]
             h = gen.gen_header(r)
-            built = [gen.build_tx(t) for t in txs]
+            # the same description is the same object (duplicates are the same transaction object, as when a list is
+            # extended with its own elements); in the "dups" variant the coinbase itself recurs
+            if variant == "dups" and n > 2:
+                txs[-1] = txs[0]
+                txs[1] = small_tx(r, True)          # witness data present, so the witness root exists for the duplicate case too
+            cache = {}
+            mutable_hist = variant == "plain" and n % 3 == 0
+            built = []
+            for t in txs:
+                if id(t) not in cache:
+                    if mutable_hist:
+                        # a mutable transaction that was asked for its id, then edited to these values, then put in a block
+                        other = small_tx(r, False)
+                        m = gen.build_tx(other, True)
+                        m.GetTxid(), m.GetHash()
+                        src = gen.build_tx(t, True)
+                        m.nVersion, m.nLockTime, m.vin, m.vout, m.wit = src.nVersion, src.nLockTime, src.vin, src.vout, src.wit
+                        cache[id(t)] = m
+                    else:
+                        cache[id(t)] = gen.build_tx(t)
+                built.append(cache[id(t)])
             out = {}
             k, blk = call(CBlock, h["ver"], h["prev"], bytes(32), h["time"], h["bits"], h["nonce"], built)
             if k == "exc":
